@@ -428,9 +428,57 @@ func (env *Zlisp) PrepareCallExprArgs(function *SexpFunction, args []Sexp) error
 		if err != nil {
 			return err
 		}
+		if function != nil && !function.user {
+			// a dot path handed to a function written in the script
+			// language is an argument like any other: it denotes its
+			// value in the caller's scope, so it is looked up here,
+			// before the call, and not when the callee binds or first
+			// uses its parameter (where the root of the path may be
+			// invisible, or shadowed by one of the callee's own names).
+			// Builtins keep receiving the path itself: some assign to it.
+			val, err = env.resolveDotArg(val)
+			if err != nil {
+				return err
+			}
+		}
 		env.datastack.PushExpr(val)
 	}
 	return nil
+}
+
+// resolveDotArgsOnStack does the same for the nargs arguments a
+// compiled call sequence has already placed on the data stack.
+func (env *Zlisp) resolveDotArgsOnStack(nargs int) error {
+	args, err := env.datastack.GetExpressions(nargs)
+	if err != nil {
+		return err
+	}
+	changed := false
+	for i := range args {
+		if sym, isSym := args[i].(*SexpSymbol); isSym && sym.isDot {
+			args[i], err = env.resolveDotArg(sym)
+			if err != nil {
+				return err
+			}
+			changed = true
+		}
+	}
+	if !changed {
+		return nil
+	}
+	if _, err = env.datastack.PopExpressions(nargs); err != nil {
+		return err
+	}
+	return env.datastack.PushExpressions(args)
+}
+
+// resolveDotArg returns the value a dot-symbol denotes in the
+// current scope; every other value is returned as it is.
+func (env *Zlisp) resolveDotArg(val Sexp) (Sexp, error) {
+	if sym, isSym := val.(*SexpSymbol); isSym && sym.isDot {
+		return dotGetSetHelper(env, sym.name, nil)
+	}
+	return val, nil
 }
 
 func (env *Zlisp) CallResolved(funcobj Sexp, callName string, args []Sexp) error {
